@@ -187,6 +187,94 @@ def contracts(rep):
           'ensures step.step_num == f"{container.step_num}_{len(old(container.step))}" and container.step == old ++ [step]')
 
 
+def placement(rep):
+    """add_plan_step decides whether a step lives inside the open map-reduce container or in the plan. From the property: a step built while the
+    container is open that consumes the running result (JoinStep / ApplyPredictorStep take the top of the step stack, which is a sub-step) must go into
+    the container; any other step must not be placed at top level while the container it may depend on is still open."""
+    from mindsdb_sql.planner.steps import MapReduceStep, JoinStep, ApplyPredictorStep, FetchDataframeStep
+    from mindsdb_sql.planner.plan_join import PlanJoinTablesQuery
+    fn = 'mindsdb_sql.planner.plan_join:PlanJoinTablesQuery.add_plan_step'
+    for kind, K in (('join', JoinStep), ('apply', ApplyPredictorStep), ('fetch', FetchDataframeStep)):
+        for part_open in (True, False):
+            for psize in (False, True):
+                tag = f'{kind}.{"open" if part_open else "closed"}.{"size" if psize else "nosize"}'
+
+                def make_args(ex, K=K, part_open=part_open, psize=psize):
+                    selfo = SymObj({PlanJoinTablesQuery}, 'self', prov='param')      # new helper methods resolve on the real class
+                    selfo.known_not_none = True
+                    log = []
+                    if part_open:
+                        part = SymObj({MapReduceStep}, 'partition', prov='param')
+                        part.known_not_none = True
+                        part.fields['step_num'] = pysym.mk_int('container_num')
+                        part.fields['step'] = ex.param_container([SymObj(None, 'sub0', prov='param')])
+                        selfo.fields['partition'] = part
+                    else:
+                        selfo.fields['partition'] = None
+                    step = SymObj({K}, 'step', prov='param')
+                    step.known_not_none = True
+                    step.fields['dataframe'] = SymObj(None, 'dataframe', prov='param')
+                    step.fields['step_num'] = None
+                    if K is JoinStep:
+                        from mindsdb_sql.parser.ast import Join
+                        jq = SymObj({Join}, 'step.query', prov='param')
+                        jq.known_not_none = True
+                        jq.fields.update(join_type=pysym.mk_str('join_type'), condition=None, implicit=False)
+                        step.fields['query'] = jq
+                    selfo.fields['add_step_to_partition'] = Stub(lambda ex_, a, k: log.append(('partition', a[0])), 'add_step_to_partition')
+                    selfo.fields['close_partition'] = Stub(lambda ex_, a, k: log.append(('close', None)), 'close_partition')
+                    planner = SymObj(None, 'planner', prov='param')
+                    planner.known_not_none = True
+                    pl = SymObj(None, 'plan', prov='param')
+                    pl.known_not_none = True
+                    pl.fields['add_step'] = Stub(lambda ex_, a, k: (log.append(('plan', a[0])), a[0])[1], 'plan.add_step')
+                    planner.fields['plan'] = pl
+                    selfo.fields['planner'] = planner
+                    ex.path_state.update(log=log, step=step)
+                    kw = {'partition_size': pysym.mk_int('partition_size')} if psize else {}
+                    return [selfo, step], kw
+
+                def post(ex, o, kind=kind, part_open=part_open, psize=psize):
+                    if o.kind != 'return':
+                        return f'raises {getattr(o.value, "__name__", o.value)}'
+                    log, step = o.state['log'], o.state['step']
+                    where = [w for w, x in log if x is step]
+                    if len(where) != 1:
+                        return f'the step is placed {len(where)} times ({[w for w, _ in log]})'
+                    if part_open and kind in ('join', 'apply') and where != ['partition']:
+                        return 'a join / model application built while the map-reduce container is open is placed at the top level of the plan: it consumes a sub-step result that exists only inside the container'
+                    if part_open and kind == 'fetch':
+                        i = [j for j, (w, x) in enumerate(log) if x is step][0]
+                        if where == ['plan'] and ('close', None) not in log[:i]:
+                            return 'a step is placed at top level while the container is still open (steps added to the container afterwards can consume it: forward reference inside the container)'
+                    if not part_open and psize:
+                        kinds_ = [w for w, _ in log]
+                        if kinds_[:2] != ['plan', 'partition'] or where != ['partition'] or type(log[0][1]).__name__ != 'SymObj' or log[0][1].cls is not MapReduceStep:
+                            return f'partition_size given: expected a new MapReduceStep in the plan and the step inside it, got {kinds_}'
+                    if not part_open and not psize and where != ['plan']:
+                        return 'without a container the step belongs to the plan'
+                    return None
+                v = pysym.verify('mindsdb_sql.planner.plan_join', 'PlanJoinTablesQuery.add_plan_step', make_args, post)
+                sql = {'join': 'SELECT * FROM int1.tbl1 AS t RIGHT JOIN mindsdb.pred AS m USING partition_size = 10',
+                       'apply': 'SELECT * FROM int1.tbl1 AS t JOIN mindsdb.pred AS m JOIN proj.pred2 AS m2 USING partition_size = 10',
+                       'fetch': 'SELECT * FROM int1.tbl1 AS t JOIN mindsdb.pred AS m JOIN int2.tbl2 AS t2 ON t2.id = t.id USING partition_size = 10'}[kind]
+                _emit(rep, f'C09.partition.place.{tag}', v, fn,
+                      'ensures the step is placed exactly once; container open and step in {JoinStep, ApplyPredictorStep} => inside the container; nothing is placed at top level while the container stays open; partition_size => new container first',
+                      replay=lambda sql=sql: replay_plan(sql))
+
+
+def replay_plan(sql):
+    try:
+        sc = {'source': 'replay', 'sql': sql, 'catalog': 'names'}
+        q, pl, plan, e, kw = plans.run_scenario(sc)
+        if e is not None:
+            return {'input': sql, 'dialect': 'mindsdb', 'fires': False, 'observed': f'{type(e).__name__}: {e}'[:120]}
+        probs = check_plan(plan)
+        return {'input': sql, 'dialect': 'mindsdb', 'fires': bool(probs), 'observed': '; '.join(m for _, m in probs)[:300] or 'plan is well-formed', 'expected': 'forward-only plan'}
+    except Exception as e:
+        return {'input': sql, 'dialect': 'mindsdb', 'fires': False, 'observed': f'{type(e).__name__}: {e}'[:120]}
+
+
 def discipline(rep):
     fn = '(whole repository: mindsdb_sql/**)'
     sites = frames.calls_of('Result', mods())
@@ -276,6 +364,7 @@ def check(rep, tier):
                'census is by attribute name (no alias analysis): any `.steps` / `.step_num` store anywhere in mindsdb_sql counts')
     rep.trust('pysym executor', 'frames census')
     contracts(rep)
+    placement(rep)
     discipline(rep)
     bounded(rep, tier)
     rep.notes.append('Numbering discipline proved; planner exception-freedom and container placement only monitored (bounded).')
